@@ -45,38 +45,38 @@ def rules_for(prop):
     FILEIO = ("rxsci/io/file.py",)
     table = {
         "C01": per_subscription() + [mx.rule_ev1, ag.rule_ag1, ag.rule_ag2, ag.rule_ag3_small, ag.rule_ag3_map_filter, ag.rule_ag3_do_action, scan.rule_sc1, scan.rule_sd2, tm.rule_tm4, st.rule_st5, seq.rule_fw2, ms.rule_ms, ms.rule_ms6, ms.rule_tp1, named(grp.rule_fw1, heads=("group_by",)), grp.rule_eq2, mx.rule_mx9],
-        "C02": st.RULES + [ms.rule_tp1, ms.rule_ms, ms.rule_ms6, tm.rule_tm5, scan.rule_sd1, mx.rule_mx6, sub.rule_gen1, grp.rule_eq2],
-        "C03": mx.RULES + [st.rule_st8, ms.rule_ms, ms.rule_ms6, ms.rule_tp1, sub.rule_sub3, grp.rule_eq2],
+        "C02": st.RULES + [lv.rule_lv, ms.rule_tp1, ms.rule_ms, ms.rule_ms6, tm.rule_tm5, scan.rule_sd1, mx.rule_mx6, sub.rule_gen1, grp.rule_eq2],
+        "C03": mx.RULES + [grp.rule_dp4, st.rule_st8, ms.rule_ms, ms.rule_ms6, ms.rule_tp1, sub.rule_sub3, grp.rule_eq2],
         "C04": [named(grp.rule_fwd1, heads=("group_by",)), named(grp.rule_eq1, files=("rxsci/operators/group_by.py", "rxsci/state/memory_store.py", "rxsci/state/store.py",
                                            "rxsci/operators/multiplex.py"), min_instances=1), named(grp.rule_fw1, heads=("group_by",)), grp.rule_fl1,
-                named(lv.rule_lv, only=("group_by_mux._group_by.on_subscribe",)), ms.ms_for_types("mapper", maps=True), ms.rule_tp1, named(mx.rule_mx5, heads_only=("group_by",)), *plumbing(*("rxsci/operators/group_by.py", "rxsci/operators/multiplex.py", "rxsci/state/with_store.py"))],
+                named(lv.rule_lv, only=("group_by_mux._group_by.on_subscribe",)), scoped(sub.rule_sub1, ("rxsci/operators/group_by.py",)), ms.ms_for_types("mapper", maps=True), ms.rule_tp1, named(mx.rule_mx5, heads_only=("group_by",)), *plumbing(*("rxsci/operators/group_by.py", "rxsci/operators/multiplex.py", "rxsci/state/with_store.py"))],
         "C05": [named(grp.rule_fwd1, heads=("roll",)), grp.rule_roll, named(grp.rule_fw1, heads=("roll_count",)), scoped(st.rule_st2_3_4, ROLL), scoped(st.rule_st6, ROLL),
-                named(lv.rule_lv, only=("roll_mux._roll.subscribe", "roll_mux._roll_count.subscribe")), ms.ms_for_types("int", "uint", "mapper", maps=True), ms.rule_tp1, named(mx.rule_mx5, heads_only=("roll",)), *plumbing(*ROLL)],
+                named(lv.rule_lv, only=("roll_mux._roll.subscribe", "roll_mux._roll_count.subscribe")), scoped(sub.rule_sub1, ROLL), ms.ms_for_types("int", "uint", "mapper", maps=True), ms.rule_tp1, named(mx.rule_mx5, heads_only=("roll",)), *plumbing(*ROLL)],
         "C08": per_subscription("rxsci/operators/tee_map.py") + [tm.rule_tm123, tm.rule_tm4, tm.rule_tm5, st.rule_st5, mx.rule_mx7, ag.rule_ag1, lv.rule_lv, mx.rule_mx5, tm.rule_tm6],
-        "C09": scan.RULES + per_subscription("rxsci/operators/scan.py", "rxsci/operators/count.py", "rxsci/data/to_list.py", "rxsci/data/to_array.py") + [ms.ms_for_types("int", "float", "bool", "obj", maps=True), ms.rule_tp1, grp.rule_eq2, mx.rule_mx6, named(grp.rule_fw1, heads=("group_by",)), only_constructs(grp.rule_fl1, ("rxsci/state/memory_store.py",))],
+        "C09": scan.RULES + per_subscription("rxsci/operators/scan.py", "rxsci/operators/count.py", "rxsci/data/to_list.py", "rxsci/data/to_array.py") + [ms.ms_for_types("int", "float", "bool", "obj", maps=True), ms.rule_tp1, grp.rule_eq2, mx.rule_mx6, lv.rule_lv, named(grp.rule_fw1, heads=("group_by",)), only_constructs(grp.rule_fl1, ("rxsci/state/memory_store.py",))],
         "C10": seq.RULES + per_subscription(*SEQ) + [only_constructs(ag.rule_ag1, SEQ), only_constructs(ag.rule_ag2, SEQ), scoped(ag.rule_ag8, SEQ), scan.rule_sc1, named(grp.rule_eq1, files=("rxsci/operators/distinct.py", "rxsci/operators/distinct_until_changed.py",
                                                        "rxsci/operators/first.py", "rxsci/operators/take.py", "rxsci/operators/last.py",
                                                        "rxsci/data/lag.py", "rxsci/data/pad.py", "rxsci/operators/start_with.py",
                                                        "rxsci/data/batch.py"), min_instances=1), ms.ms_for_types("int", "bool", "obj", maps=True), ms.rule_tp1, grp.rule_eq2],
-        "C11": [io.rule_framing, pr.rule_pr1, pr.rule_pr2, grp.rule_pr3, seq.rule_dp6, st.rule_st1, tm.rule_tm123, tm.rule_tm4, io.rule_fr3_prompt, io.rule_codec, seq.rule_opt1_time_split, grp.rule_dur1, seq.rule_fw2, tm.rule_tm6, grp.rule_dp4, only_constructs(ag.rule_ag1, ("rxsci/operators/flat_map.py",)), only_constructs(ag.rule_ag2, ("rxsci/operators/flat_map.py",)), ag.rule_ag8,
+        "C11": [io.rule_framing, pr.rule_pr1, pr.rule_pr2, pr.rule_pr4, grp.rule_pr3, seq.rule_dp6, st.rule_st1, tm.rule_tm123, tm.rule_tm4, io.rule_fr3_prompt, io.rule_codec, seq.rule_opt1_time_split, grp.rule_dur1, seq.rule_fw2, tm.rule_tm6, grp.rule_dp4, only_constructs(ag.rule_ag1, ("rxsci/operators/flat_map.py",)), only_constructs(ag.rule_ag2, ("rxsci/operators/flat_map.py",)), ag.rule_ag8,
                 *plumbing(*("rxsci/operators/scan.py", "rxsci/data/roll.py", "rxsci/data/split.py", "rxsci/data/time_split.py", "rxsci/operators/group_by.py",
                                        "rxsci/operators/tee_map.py", "rxsci/data/batch.py", "rxsci/operators/multiplex.py"), user_results=False)],
         "C12": [ms.ms_for_types("int", "float", "bool", "obj", maps=True), ms.rule_tp1, scan.rule_sd1, scan.rule_sc1, grp.rule_eq2, num.rule_nm1, ag.rule_ag4, named(scan.rule_pu1, files=("rxsci/math/sum.py", "rxsci/math/mean.py", "rxsci/math/min.py", "rxsci/math/max.py",
                                                           "rxsci/math/variance.py", "rxsci/math/stddev.py", "rxsci/math/formal/variance.py",
                                                           "rxsci/math/formal/stddev.py", "rxsci/math/formal/__init__.py"))],
-        "C13": er.RULES + [mx.rule_mx9, mx.rule_wc2, st.rule_st8, mx.rule_ev1, error_paths(mx.rule_mx_flat), scan.rule_sc1, *plumbing(*("rxsci/error/ignore.py", "rxsci/error/map.py", "rxsci/error/router.py", "rxsci/operators/map.py",
+        "C13": er.RULES + [scoped(sub.rule_sub1, ("rxsci/error/ignore.py", "rxsci/error/map.py", "rxsci/error/router.py", "rxsci/operators/map.py", "rxsci/operators/filter.py", "rxsci/operators/scan.py")), mx.rule_mx9, mx.rule_wc2, st.rule_st8, mx.rule_ev1, error_paths(mx.rule_mx_flat), scan.rule_sc1, *plumbing(*("rxsci/error/ignore.py", "rxsci/error/map.py", "rxsci/error/router.py", "rxsci/operators/map.py",
                                                                                    "rxsci/operators/starmap.py", "rxsci/operators/filter.py", "rxsci/operators/scan.py", "rxsci/operators/multiplex.py"))],
         "C14": ms.RULES + [only_constructs(grp.rule_fl1, ("rxsci/state/memory_store.py",))],
         "C15": [io.rule_framing, scoped(sub.rule_src1, FRAMING)] + per_subscription(*FRAMING),
         "C16": [io.rule_compression, scoped(sub.rule_src1, COMPRESSION)] + per_subscription(*COMPRESSION),
-        "C17": [scoped(sub.rule_src1, CODEC + COMPRESSION + FRAMING + FILEIO), io.rule_codec, io.rule_fr3, io.rule_compression, scoped(io.rule_cd2, CODEC + ("rxsci/container/json.py", "rxsci/container/csv.py") + FRAMING + FILEIO)] + per_subscription(*CODEC),
+        "C17": [io.rule_fh1_file, scoped(sub.rule_src1, CODEC + COMPRESSION + FRAMING + FILEIO), io.rule_codec, io.rule_fr3, io.rule_compression, scoped(io.rule_cd2, CODEC + ("rxsci/container/json.py", "rxsci/container/csv.py") + FRAMING + FILEIO)] + per_subscription(*CODEC),
         "C18": [scoped(sub.rule_src1, ("rxsci/container/csv.py",) + FRAMING + FILEIO), scoped(io.rule_cd2, ("rxsci/container/csv.py",) + CODEC + FRAMING + FILEIO), cont.rule_csv_tables, cont.rule_csv_merge, cont.rule_csv_classify, cont.rule_csv_file_modes, cont.rule_dp7, io.rule_fr3, io.rule_fh1_file, io.rule_fr1] + per_subscription("rxsci/container/csv.py", "rxsci/framing/line.py", *FILEIO),
         "C19": [scoped(sub.rule_src1, ("rxsci/container/json.py",) + CODEC + COMPRESSION + FRAMING + FILEIO), scoped(io.rule_cd2, ("rxsci/container/json.py",) + CODEC + FRAMING + FILEIO + COMPRESSION), cont.rule_ag7, io.rule_framing, io.rule_codec, io.rule_compression, io.rule_fr3, io.rule_fh1_file] + per_subscription("rxsci/container/json.py", *(FRAMING + COMPRESSION + CODEC + FILEIO)),
         "C20": [scoped(sub.rule_src1, ("rxsci/container/parquet.py",)), cont.rule_pu2, seq.rule_dp6, io.rule_fh1_parquet, scan.rule_sd1, scan.rule_sc1] + per_subscription("rxsci/container/parquet.py", "rxsci/data/batch.py", "rxsci/operators/scan.py"),
         "C06": [named(grp.rule_fwd1, heads=("split",)), named(grp.rule_eq1, files=("rxsci/data/split.py",), min_instances=1), named(grp.rule_fw1, heads=("split",)), grp.rule_dp4,
-                named(lv.rule_lv, only=("split_mux._split.on_subscribe",)), ms.ms_for_types("obj", "mapper", maps=True), ms.rule_tp1, mx.rule_mx6, named(mx.rule_mx5, heads_only=("split",)), *plumbing(*("rxsci/data/split.py",))],
+                named(lv.rule_lv, only=("split_mux._split.on_subscribe",)), scoped(sub.rule_sub1, ("rxsci/data/split.py",)), ms.ms_for_types("obj", "mapper", maps=True), ms.rule_tp1, mx.rule_mx6, named(mx.rule_mx5, heads_only=("split",)), *plumbing(*("rxsci/data/split.py",))],
         "C07": [named(grp.rule_fwd1, heads=("time_split",)), grp.rule_time_split, grp.rule_dur1, seq.rule_opt1_time_split, named(grp.rule_fw1, heads=("time_split",)),
-                named(lv.rule_lv, only=("time_split_mux._time_split.on_subscribe",)), ms.ms_for_types("obj", "mapper", maps=True), ms.rule_tp1, named(mx.rule_mx5, heads_only=("time_split",)), *plumbing(*("rxsci/data/time_split.py",))],
+                named(lv.rule_lv, only=("time_split_mux._time_split.on_subscribe",)), scoped(sub.rule_sub1, ("rxsci/data/time_split.py",)), ms.ms_for_types("obj", "mapper", maps=True), ms.rule_tp1, named(mx.rule_mx5, heads_only=("time_split",)), *plumbing(*("rxsci/data/time_split.py",))],
     }
     return table.get(prop)
 
@@ -158,7 +158,7 @@ EXPLANATION = {
 }
 
 # clauses added after the texts above were written (seed round f, mutation round 4); appended so that every evidence file names them
-_PLUMB = (" Also, on the modules of this property: SUB-3 every subscription an operator makes passes a handler for on_next, on_error and "
+_PLUMB = (" Also, on the modules of this property: SUB-1 (where listed) per-subscription state -- closure variables rebound by a handler or by any other function of the subscription, the state topology a probe carries, the disposable a subscribe function returns -- is created by the function that makes the subscription; SUB-3 every subscription an operator makes passes a handler for on_next, on_error and "
           "on_completed (or the whole observer) and subscribes its source at most once on a path; GEN-3 every function that builds an "
           "operator's observable returns a value on every path; CFG-1 a factory parameter the handlers test is not recomputed in the factory from "
           "anything but itself (otherwise the run ends as ANALYSIS-ERROR: the per-configuration reading of the handlers would not describe them), and a user function is never wrapped in a cache; ARG-1 an operator factory does not mutate the objects it is given (a list of stages, of sources), directly or through a local alias, nor replace a sequence argument by set / sorted / reversed / dict.fromkeys of it; GEN-1 a one-shot iterator (generator expression, map / zip / iter, itertools objects) built by a factory is not consumed per subscription or per key, in the factory's own inner functions or in those of another factory it is handed to; CACHE-1 no function applied per item is memoised by == / hash; EQ-3 a parameter is not compared with True / False by == or `in` (0 == False). Parameters the pinned tree's functions did not have (rxsa/known_params.py) and that default to None / True / False are analysed at their default only.")
@@ -166,19 +166,19 @@ _EQ2 = " EQ-2 a marker object (STATE_NOTSET, STATE_CLEARED) is told apart by ide
 _ADDED = {
     "C01": " MX-9 an operator that tells mux events apart and sends them on builds a MuxObservable (a plain Observable of event tuples would send its successor down its plain arm); MS-6 the store layers forward state, key and value unchanged; TP-1 (state ids); FW-1 for group_by." + _EQ2 + _PLUMB,
     "C02": _EQ2 + " MS-6 (forwarders); GEN-1 no generator-built handler; TP-1 the state topology gives every declaration a new state id (create_mapper included); MX-6 one topology is probed by every subscriber of a merged source.",
-    "C03": _EQ2 + " MS-6 (forwarders); TP-1 (state ids are never shared between declarations); SUB-3 (see C01) on every module.",
+    "C03": _EQ2 + " DP-4 split records a segment before anything is sent into its pipeline; MS-6 (forwarders); TP-1 (state ids are never shared between declarations); SUB-3 (see C01) on every module.",
     "C04": " MX-5 the sandwich of group_by; FWD-1 the public group_by hands key_mapper and pipeline unchanged to the implementation; TP-1 two group_by in one pipeline get two mapper states." + _PLUMB,
     "C05": " MX-5 the sandwich of roll; FWD-1 the public roll hands window and stride unchanged to the implementation." + _PLUMB,
     "C06": " MX-5 the sandwich of split (head, the user pipeline, demux on the head's own Subject); FWD-1 the public split hands predicate and pipeline unchanged to the implementation; MX-6 one shared topology when several multiplexed sources are merged." + _PLUMB,
     "C07": " DUR-1 durations are ordered as timedelta values (or total_seconds()), never through .seconds / .microseconds / .days alone; MX-5 the sandwich of time_split; FWD-1 the public time_split hands both timeouts, the time mapper, closing_mapper and include_closing_item unchanged to the implementation (no clamping or defaulting)." + _PLUMB,
-    "C08": " TM-6 who may connect: connect() is called only by tee_map's join, the mux connectable proxy and train_test_split -- never by an operator on a source it was handed; MX-5 also: the shared outer subject of a grouping head is completed / errored exactly when its source is, on every path; TM-3 every application of tee_map publishes its own connectable from its source, also when the source is itself a connectable proxy." + _PLUMB,
+    "C08": " TM-4 also: the zip join releases the key's flags and slots before the tuple goes out; TM-6 who may connect: connect() is called only by tee_map's join, the mux connectable proxy and train_test_split -- never by an operator on a source it was handed; MX-5 also: the shared outer subject of a grouping head is completed / errored exactly when its source is, on every path; TM-3 every application of tee_map publishes its own connectable from its source, also when the source is itself a connectable proxy." + _PLUMB,
     "C09": _EQ2 + " MX-6 the root multiplexer frames a failing source as an error, not as a completion; AG-3b a marker tested in the plain scan's accumulator variable is the value that variable starts with." + _PLUMB,
     "C10": _EQ2 + " FW-2 also: pad_start / pad_end refuse negative sizes only (0 is the identity); AG-8 the plain arms are the implementations confirmed on the pinned tree." + _PLUMB,
-    "C11": " AG-1 / AG-2 on flat_map (the plain arm is the repository's synchronous twin, given the same arguments); OPT-1 / DUR-1 for time_split (a zero timeout is a timeout; durations compared as durations); TM-1..4 for tee_map: the join completes with its last branch, not with the source." + _PLUMB,
-    "C12": _EQ2 + " The per-key-state obligations of the memory store for the declared types int / float / bool / obj (MS-5: float states are C doubles).",
-    "C13": " MX-9 (see C01): the error handlers stay MuxObservables; ER-4 starmap is map(lambda i: mapper(*i)): one call of the user function, no handler of its own." + _PLUMB,
+    "C11": " PR-4 from_iterable emits each element before it pulls the next (no look-ahead); AG-1 / AG-2 on flat_map (the plain arm is the repository's synchronous twin, given the same arguments); OPT-1 / DUR-1 for time_split (a zero timeout is a timeout; durations compared as durations); TM-1..4 for tee_map: the join completes with its last branch, not with the source." + _PLUMB,
+    "C12": _EQ2 + " SC-1 also: the new accumulator is written back before the running value is emitted; The per-key-state obligations of the memory store for the declared types int / float / bool / obj (MS-5: float states are C doubles).",
+    "C13": " SUB-1 on the error handlers and the capturing operators (state, and what a subscribe function returns, are per subscription); MX-9 (see C01): the error handlers stay MuxObservables; ER-4 starmap is map(lambda i: mapper(*i)): one call of the user function, no handler of its own." + _PLUMB,
     "C14": " MS-2 also: the three arrays only ever grow, and only in add_key (a slot popped and grown back reads as cleared for a key that is alive and not written yet); TP-1 (state ids); FL-1 (store half) iterate_map walks the parent's dict itself -- every mapped key, in insertion order, no sorting or filtering in between -- and a mapper starts every parent lifetime with its own empty dict.",
-    "C15": " FR-1 / FR-2 also: unframe signals no terminal event while handling a chunk (a chunk of any length is legitimate); FR-2 guard: the size test of frame rejects only lengths that do not fit in prefix_size bytes (folded for 1, 2, 4, 8)." + _PLUMB,
+    "C15": " FR-1 also: the carry-over of line.unframe is in place before the first line of the chunk is handed on; FR-1 / FR-2 also: unframe signals no terminal event while handling a chunk (a chunk of any length is legitimate); FR-2 guard: the size test of frame rejects only lengths that do not fit in prefix_size bytes (folded for 1, 2, 4, 8)." + _PLUMB,
     "C16": " OB-1 also: compress / decompress handle the completion of their source themselves (flush; end-of-stream check), never hand it over as it comes." + _PLUMB,
     "C17": " CD-2 every str.encode / bytes.decode on the way of the data (codec, containers, framing, file io) uses the strict error scheme; OB-1 / FR-3 the transports the codec pipelines run over (compression stages, file.read) hand every byte on." + _PLUMB,
     "C18": " FH-1 also: file.write writes every item as it comes (where it keeps a write buffer, some path of on_completed writes it out whichever kind of target was given); SRC-1 the stages subscribe their source itself, not a pipeline over it that drops items; CD-2 (see C17) on csv.py and the stages of its pipelines; FR-3 also: the chunks are read from the object given as file, or from what was opened from it; CS-5 also: the reader decodes the whole file with one decoder (text-mode file or incremental decode stage, never chunk by chunk) using the encoding it was given; the writer creates / truncates the file." + _PLUMB,
